@@ -126,7 +126,7 @@ def c14(ctx):
 # ---------------------------------------------------------------------------
 # C03 / C17  recording operations: sequential histories and concurrent writers
 
-def _writers(ctx, pid, modes, limit):
+def _writers(ctx, pid, modes, limit, real_limit=0):
     known, asbuilt = devsets(pid)
     asbuilt = (asbuilt & WRITER_DEVS) | known
     scns = []
@@ -144,8 +144,24 @@ def _writers(ctx, pid, modes, limit):
         raise Infra("TLC emitted no scenarios")
     scn_path = os.path.join(ctx.scratch, "scn.ndjson")
     write_ndjson(scn_path, scns)
+    trace_mem = os.path.join(ctx.scratch, "trace_mem.ndjson")
+    run_vh(ctx, ["writers", "-scn", scn_path, "-out", trace_mem, "-seed", ctx.seed, "-n", limit])
+    parts = [trace_mem]
+    if real_limit:
+        # the same schedules on real on-disk repositories through gitinterface.Repository (gated Storer + Commit yield hook)
+        trace_real = os.path.join(ctx.scratch, "trace_real.ndjson")
+        run_vh(ctx, ["writers", "-mode", "real", "-scn", scn_path, "-out", trace_real, "-seed", ctx.seed + 7, "-n", real_limit], timeout=7200)
+        parts.append(trace_real)
     trace = os.path.join(ctx.scratch, "trace.ndjson")
-    run_vh(ctx, ["writers", "-scn", scn_path, "-out", trace, "-seed", ctx.seed, "-n", limit])
+    n = 0
+    with open(trace, "w") as f:
+        for p in parts:
+            for rr in read_ndjson(p):
+                n += 1
+                rr["id"] = n
+                rr["backend"] = "git" if p != trace_mem else "mem"
+                f.write(json.dumps(rr, separators=(",", ":")) + "\n")
+    ctx.coverage_extra["replayed_on_real_git"] = n - sum(1 for _ in open(trace_mem))
     cls = validate_trace(ctx, "Trace_Writers", trace, {"Known": known, "AsBuilt": asbuilt})
     lines = {r["id"]: r for r in read_ndjson(trace)}
     tally = Tally(ctx)
@@ -153,7 +169,7 @@ def _writers(ctx, pid, modes, limit):
     for rec in cls:
         r = rec["r"]
         line = lines[rec["id"]]
-        item = {"id": rec["id"], "why": r.get("why"), "sched": line["scn"]["sched"], "jobs": line["scn"]["jobs"],
+        item = {"id": rec["id"], "backend": line.get("backend"), "why": r.get("why"), "sched": line["scn"]["sched"], "jobs": line["scn"]["jobs"],
                 "init": line["scn"]["init"], "obs": line["obs"]} if r["cls"] != "conform" else None
         tally.add(r["cls"], item, dev=r.get("dev"), nontrivial_key=rec["id"] if rec["n"] > 0 else None)
         notfollowed += 0 if rec["followed"] else 1
@@ -172,7 +188,7 @@ def c03(ctx):
 
 def c17(ctx):
     modes = [("conc2", 0)] if ctx.quick() else [("conc2", 0), ("conc3", 0)]
-    return _writers(ctx, "C17", modes, 6000 if ctx.quick() else 80000)
+    return _writers(ctx, "C17", modes, 6000 if ctx.quick() else 80000, real_limit=200 if ctx.quick() else 3000)
 
 
 # ---------------------------------------------------------------------------
